@@ -176,6 +176,10 @@ def classify(unit, rs, meta, out, diags):
             f["tags"] = o.get("tags", [])
             f["text"] = o["text"]
             f["exit_text"] = site_text
+            if site is not None:
+                # a clause of a trait declaration fails in the body of an impl: the body's function is the one that matters for the
+                # same-query guard
+                f["site_fn"], f["site_file"] = site["fn"], site["file"]
             f["obligation"] = f"{o['file']}::{o['fn']}#{kind}{o['idx']}[{o['text']}]"
         elif site is not None:
             f["fn"] = site["fn"]
@@ -415,7 +419,8 @@ def _run_unit_once(unit, verify_args, tier, seed, prefixes, res, pulls, demote=N
     kept = []
     for f in failures:
         key = (f.get("file"), str(f.get("fn", "")).split("#")[0])
-        if key in same_vc and f.get("kind") != "callee-requires" and not lost_any:
+        skey = (f.get("site_file"), str(f.get("site_fn", "")).split("#")[0]) if f.get("site_fn") else key
+        if key in same_vc and skey in same_vc and f.get("kind") != "callee-requires" and not lost_any:
             terrs.append(f"verifier instability: {f.get('obligation')} fails although the function, the types and the constants of the unit are "
                          f"byte-identical to the pinned tree, where the same obligation was discharged")
             continue
